@@ -47,6 +47,25 @@ def param_programs():
         return m
     yield ("params/sources", vp)
 
+    def partial_pulse():
+        m = h.Module(name="PVp")
+        m.a, m.b = h.Signal(), h.Signal()
+        m.v = h.Vpulse(v1=0, v2=1)(p=m.a, n=m.b)          # the other pulse parameters are left unset
+        m.w = h.Vpulse(delay=2 * h.prefix.n)(p=m.a, n=m.b)
+        m.s = h.Vsin(voff=0, vamp=1, freq=1 * h.prefix.M)(p=m.a, n=m.b)
+        return m
+    yield ("params/partial-sources", partial_pulse)
+    from vlsirtools import SpiceType
+    for st in SpiceType:
+        def b(st=st):
+            E = h.ExternalModule(name=f"EST_{st.name}", port_list=[h.Inout(name="p"), h.Inout(name="n")], desc="with a spice type",
+                                 domain="spt", spicetype=st)
+            m = h.Module(name="PS")
+            m.a, m.b = h.Signal(), h.Signal()
+            m.e = E()(p=m.a, n=m.b)
+            return m
+        yield (f"params/spicetype/{st.name}", b)
+
 
 def check_roundtrip(case):
     import hdl21 as h
